@@ -501,6 +501,10 @@ fn fam_from(v: &Value) -> R<KeyFamily> {
     })
 }
 
+fn hint_name(h: u8) -> &'static str {
+    ["(0, None)", "exact", "(usize::MAX, None)", "(0, Some(0))"][(h % 4) as usize]
+}
+
 pub fn case_to(c: &Case) -> Value {
     match c {
         Case::Build(b) => json!({"build": build_to(b)}),
@@ -519,7 +523,7 @@ pub fn case_to(c: &Case) -> Value {
         }}),
         Case::Delta(d) => json!({"address_delta_boundary": {"target_delta": d.target, "seed": d.seed.to_string()}}),
         Case::Epoch(e) => json!({"many_builders_in_a_row": {"items": items_to(&e.items), "valued": e.valued, "empty_builders_between_the_two_builds": e.between}}),
-        Case::FromIter(f) => json!({"from_iter": {"entry_point": f.entry.name(), "items": items_to(&f.items)}}),
+        Case::FromIter(f) => json!({"from_iter": {"entry_point": f.entry.name(), "items": items_to(&f.items), "iterator_size_hint": hint_name(f.hint)}}),
         Case::MemRead(m) => json!({"mem_read": {
             "n_small": m.n_small, "n_large": m.n_large, "fanout": m.fanout,
             "keylen": m.keylen, "seed": m.seed.to_string(), "k": m.k,
@@ -571,6 +575,12 @@ pub fn case_from(v: &Value) -> R<Case> {
         return Ok(Case::FromIter(FromIterCase {
             entry: MemFront::from_name(get_str(x, "entry_point")?).ok_or("bad entry point")?,
             items: items_from(get(x, "items")?)?,
+            hint: match x.get("iterator_size_hint").and_then(|h| h.as_str()) {
+                Some("exact") => 1,
+                Some("(usize::MAX, None)") => 2,
+                Some("(0, Some(0))") => 3,
+                _ => 0,
+            },
         }));
     }
     if let Some(x) = v.get("mem_read") {
